@@ -165,7 +165,106 @@ func (w *mountWorld) partName(i int) string {
 	return "mounted at " + w.points[i-1]
 }
 
+// runC06AddMount: AddMount of candidate points (existing directories, files, missing paths, existing mount points,
+// directories that exist only in the root although the path routes into a mount, invalid names) on prepared
+// compositions: the answer and the routing of every candidate path afterwards, against the model.
+func runC06AddMount(r *Rng, n, idBase int) {
+	cands := candidatePaths(nsNames, 3)
+	for k := 0; k < n; k++ {
+		w := buildMountWorld(r)
+		c := &Case{ID: idBase + k, Kind: "addmount", Check: "C06_addmount_check", CType: "C06_addmount_case"}
+		c.Cells = []string{"addmount"}
+		if w.setupErr != "" {
+			c.fail(w.setupErr, "setup:failed")
+			emit(c)
+			continue
+		}
+		mw := &World{FS: w.m}
+		var opsC []string
+		for _, o := range genNS(r, false) {
+			if o.Kind == "rename" || o.Kind == "remove" || o.Kind == "removeall" || o.Kind == "open" || strings.HasPrefix(o.Kind, "h:") {
+				continue // (removing around mount points is C03's finding; handles are outside the mount model)
+			}
+			if len(opsC) >= 8 {
+				break
+			}
+			mw.Apply(o)
+			opsC = append(opsC, o.coq())
+		}
+		mw.CloseAll()
+		// a directory that exists in the ROOT file system below a mount point (the mounted one does not have it)
+		if len(w.points) > 0 && r.Intn(2) == 0 {
+			_ = hackpadfs.MkdirAll(w.parts[0], w.points[0]+"/b", 0o755)
+		}
+		var p string
+		switch r.Pick(6, 2, 2, 1) {
+		case 0:
+			p = cands[r.Intn(len(cands))]
+		case 1:
+			if len(w.points) > 0 {
+				p = w.points[r.Intn(len(w.points))] + []string{"", "/b", "/a", "/ab/a"}[r.Intn(4)]
+			} else {
+				p = "a"
+			}
+		case 2:
+			p = []string{"", ".", "/a", "a/", "a//b", "../a", "a/./b"}[r.Intn(7)]
+		default:
+			p = "nodir/" + cands[r.Intn(len(cands))]
+		}
+		if len(w.points) > 0 && r.Intn(2) == 0 && !strings.HasPrefix(p, "nodir") {
+			// (the extra root-only directory is not known to the model: keep the new point away from it)
+		}
+		rootOnly := len(w.points) > 0 && strings.HasPrefix(p, w.points[0]+"/b")
+		_, viewErr := hackpadfs.Stat(w.m, p) // what the composition itself shows at p before the call
+		inner := newMem()
+		err := w.m.AddMount(p, inner)
+		obs := "None"
+		if err != nil {
+			obs = "(Some " + canonErr(err).Cls + ")"
+		} else {
+			w.points = append(w.points, p)
+			w.parts = append(w.parts, inner)
+		}
+		c.Text = []string{fmt.Sprintf("mount points %v, %d preparing operations, AddMount(%q) -> %v", w.points, len(opsC), p, err)}
+		if err != nil {
+			if ce := canonErr(err); ce.Kind != "P" || ce.Path != p {
+				c.fail(c.Text[0]+": the error is not a *PathError naming the mount point", "addmount:error-type")
+			}
+		}
+		var routes []string
+		for _, q := range cands {
+			fs, sub := w.m.Mount(q)
+			idx := -1
+			for i, part := range w.parts {
+				if part == fs {
+					idx = i
+				}
+			}
+			routes = append(routes, fmt.Sprintf("(%s, %s, %s)", cStr(q), cNat(idx), cStr(sub)))
+		}
+		var ptsC []string
+		npts := len(w.points)
+		if err == nil {
+			npts--
+		}
+		for _, q := range w.points[:npts] {
+			ptsC = append(ptsC, cStr(q))
+		}
+		if !rootOnly {
+			c.Coq = fmt.Sprintf("(%s, %s, %s, %s, %s)", cList(ptsC), cList(opsC), cStr(p), obs, cList(routes))
+		} else {
+			// the mounted file system has no such directory although the root has: the mount must be refused
+			c.Trivial = true
+			if err == nil && viewErr != nil {
+				c.fail(c.Text[0]+": accepted, although the directory exists only in the root file system and the path routes into the file system mounted at "+w.points[0], "addmount:covered-accepted")
+			}
+		}
+		emit(c)
+	}
+}
+
 func runC06(r *Rng, n int, replay string) {
+	defer runC06AddMount(r, n/3+10, 400000)
 	defer runC06Faults(100000)
 	defer runC06XFault(200000)
 	defer runC06Modes(300000)
